@@ -22,6 +22,14 @@
    rc <fuel> <n> {x y z az el  ax ay az prio}*n <k> {zones as in ge} px py pz <off|none|bits> gain diffuse
         -> `<final mask> <U | L i> <direct bits>*n <diffuse bits>*n` | `none`      GainCalc.render, Cartesian point object (Float)
    cp <0|1> az el  -> `<az bits> <el bits>`                                         compensate_position (Float)
+   rp <n> <mask> {groups as in dm} <m> {g*n}*m {dg}*m gain diffuse
+        -> `<direct bits>*n <diffuse bits>*n` | `none`                              the polar tail of GainCalc.render on captured
+                                                                                     per-position gains and divergence weights (Float)
+   rpl <fuel> <n> {x y z az el  nx ny nz prio}*n {groups as in dm} <k> {zones as in ge} px py pz <off|none|bits> gain diffuse
+       <t> {qx qy qz g*n}*t
+        -> `<zone mask> <U | L i> <direct bits>*n <diffuse bits>*n` | `none`        GainCalc.render, polar point object: lock ->
+                                                                                     pan -> zone downmix (Float); the panner is the table
+                                                                                     of t captured (position, gains) pairs
    fl x  -> bits of  x*0  0*x  0+0  sqrt 0  nan_to_num 0                          the zero laws on doubles
 -/
 import Earverif.Model.Zone
@@ -202,6 +210,54 @@ def request : Parser String := do
     done
     let r := compensatePosition (h == 1) az el
     pure s!"{bits r.1} {bits r.2}"
+  | "rp" =>
+    let n ← nat
+    let m ← maskP
+    let gs ← groupsP n
+    let k ← nat
+    let pans ← rep (rep flt n) k
+    let dg ← rep flt k
+    let gain ← flt
+    let diffuse ← flt
+    done
+    match renderPolar n gs m pans dg gain diffuse with
+    | none => pure "none"
+    | some (d, f) => pure (String.intercalate " " (d.map bits ++ f.map bits))
+  | "rpl" =>
+    let fuel ← nat
+    let n ← nat
+    let rows ← rep (do
+      let s ← spkP
+      let x ← flt; let y ← flt; let z ← flt; let pr ← nat
+      pure (s.1, (⟨x, y, z⟩ : P3 Float), pr)) n
+    let gs ← groupsP n
+    let k ← nat
+    let zs ← rep zoneP k
+    let px ← flt; let py ← flt; let pz ← flt
+    let l ← tok
+    let gain ← flt
+    let diffuse ← flt
+    let t ← nat
+    let table ← rep (do
+      let x ← flt; let y ← flt; let z ← flt
+      let g ← rep flt n
+      pure ((⟨x, y, z⟩ : P3 Float), g)) t
+    done
+    let lock ← (if l == "off" then some none
+                else if l == "none" then some (some none)
+                else (l.toNat?).map fun b => some (some (Float.ofBits (UInt64.ofNat b))) : Option (Option (Option Float)))
+    -- the panner parameter of the model, closed with the captured values of the real panner
+    let pan : P3 Float → Option (List Float) := fun q =>
+      (table.find? fun e => e.1.x == q.x && e.1.y == q.y && e.1.z == q.z).map (·.2)
+    match renderPolarLock fuel (rows.map (·.1)) (rows.map (·.2.1)) (rows.map (·.2.2)) gs (zs.map (·.1)) pan
+        ⟨px, py, pz⟩ lock gain diffuse with
+    | none => pure "none"
+    | some (zm, lk, (d, f)) =>
+      let lks := match lk with
+        | .unchanged => "U"
+        | .locked i => s!"L{i}"
+        | .error => "E"
+      pure (String.intercalate " " ([showMask zm, lks] ++ d.map bits ++ f.map bits))
   | "fl" =>
     let x ← flt
     done
